@@ -43,7 +43,7 @@ NOT_IN_GRAMMAR = {"++", "--", "->", "+=", "-=", "*=", "/=", "%=", "&=", "^=", "|
 PUNCT = ["...", "<<=", ">>=", "<<", ">>", "<=", ">=", "==", "!=", "&&", "||", "##", "->", "++", "--", "+=", "-=", "*=", "/=", "%=", "&=", "^=", "|=",
          "+", "-", "*", "/", "%", "<", ">", "=", "!", "~", "&", "|", "^", "?", ":", ";", ",", ".", "(", ")", "[", "]", "{", "}", "#"]
 TOK = re.compile(
-    r'\s*(?:(?P<str>"(?:[^"\\\n]|\\.)*")|(?P<chr>\'(?:[^\'\\\n]|\\.)*\')|(?P<num>\.?[0-9](?:[eEpP][+-]|[0-9A-Za-z_.])*)|(?P<id>[A-Za-z_][A-Za-z0-9_]*)|(?P<p>'
+    r'\s*(?:(?P<str>"(?:[^"\\\n]|\\.)*")|(?P<chr>(?:[LuU](?=\'))?\'(?:[^\'\\\n]|\\.)*\')|(?P<num>\.?[0-9](?:[eEpP][+-]|[0-9A-Za-z_.])*)|(?P<id>[A-Za-z_][A-Za-z0-9_]*)|(?P<p>'
     + "|".join(re.escape(p) for p in PUNCT)
     + r")|(?P<other>\S))"
 )
@@ -212,7 +212,7 @@ def spell(tok):
     if isinstance(tok, pp.StringConstant):
         return '"' + str(tok.token) + '"'
     if isinstance(tok, pp.CharacterConstant):
-        return "'" + str(tok.token) + "'"
+        return getattr(tok, "prefix", "") + "'" + str(tok.token) + "'"
     return str(tok.token)
 
 
@@ -336,6 +336,7 @@ def case_strategy():
         units = [atom.map(lambda x: [x]), st.sampled_from(OPS).map(lambda x: [x])]
         units.append(st.sampled_from([["'#'"], ['"##"'], ["','"], ["'('"]]))
         if params:
+            units.append(st.sampled_from(list(params)).map(lambda q: ["L", "##", q]))  # TEXT()-style: L ## 'x' is L'x'
             # a literal whose content is spelled like a parameter is not a parameter use
             units.append(st.sampled_from(params).flatmap(lambda q: st.sampled_from([['"' + q + '"'], ["'" + q + "'"]])))
         # operands of ## are never the variadic parameter: pasting a token list that contains commas is
@@ -376,7 +377,7 @@ def case_strategy():
         # arguments are often spelled like the parameters of the macro they are passed to (MAX(a, b))
         atom = st.one_of(st.sampled_from(names + ["w", "q"]), num, st.sampled_from(["'x'", '"s t"', "+", "-", "<"]), st.sampled_from(PARAMS),
                          # constants whose content is spelled like a punctuator or operator of the macro syntax
-                         st.sampled_from(["','", "'('", "')'", "'#'", '","', '"##"', '")"']))
+                         st.sampled_from(["','", "'('", "')'", "'#'", '","', '"##"', '")"', '"a\\\\"', '"\\\\"']))
         arg = st.one_of(
             st.just([]),
             st.lists(atom, min_size=1, max_size=3),
